@@ -155,6 +155,20 @@ class PathEnumerator:
                 raise Unsupported("too many paths")
         return done + live
 
+    def _assume(self, p: Path, c: Term):
+        """on a branch the test is known: two-way values guarded by the same atoms collapse (``x = a if c else b`` ... ``if c:`` -> x is a)"""
+        lits = {}
+        for a in (c[1] if c[0] == "and" else (c,)):
+            if a[0] == "not":
+                lits[a[1]] = FALSE
+            elif a[0] not in ("or", "and", "const"):
+                lits[a] = TRUE
+        if not lits:
+            return
+        for k, v in list(p.env.items()):
+            if isinstance(v, tuple) and v and subterms(v, lambda x: x[0] == "ite" and (x[1] in lits or (x[1][0] == "not" and x[1][1] in lits) or any(y in lits for y in (x[1][1] if x[1][0] == "and" else ())))):
+                p.env[k] = subst(v, lits)
+
     def _narrow(self, c: Term):
         """isinstance(x, T) taken as true narrows the static type of x to T (only ever to a subclass)."""
         parts = c[1] if c[0] == "and" else (c,)
@@ -305,6 +319,8 @@ class PathEnumerator:
             out: List[Path] = []
             pt = p.fork(c)
             pe = p.fork(t_not(c))
+            self._assume(pt, c)
+            self._assume(pe, t_not(c))
             if self.feasible(pt.cond):
                 self._narrow(c)
                 pt.events.append(Event("branch", st, c, extra=True))
